@@ -42,9 +42,11 @@ func sortedHashes(m map[common.Uint256]interfaces.Transaction) []common.Uint256 
 }
 
 // checkPool decides every clause of the property on one snapshot.
-//   feeOf:   the fee of a pooled transaction, computed by the harness
-//            (sum of spent outputs - sum of outputs), not read from the pool
-//   lookup:  every transaction the harness ever built, by hash (for messages)
+//
+//	feeOf:   the fee of a pooled transaction, computed by the harness
+//	         (sum of spent outputs - sum of outputs), not read from the pool
+//	lookup:  every transaction the harness ever built, by hash (for messages)
+//
 // It returns the first violated clause in a fixed order (deterministic).
 func checkPool(pool *mempool.TxPool, s *mempool.VerifSnapshot, feeOf func(interfaces.Transaction) common.Fixed64,
 	lookup func(common.Uint256) interfaces.Transaction) *finding {
